@@ -24,7 +24,7 @@ theorem polyElem_cases (keep se : Bool) (a w : Area) (c n : Nat) :
   unfold fixPolygonElement
   rcases lineElem_cases keep se c with h | h | ⟨hk, h⟩ <;> rw [h] <;> cases a <;> cases w <;> split_ifs <;> simp_all [Area.res]
 
-theorem fixList_eq_map (l : List Shape) : fixList l = l.map (fix false) := by
+theorem fixList_eq_map (keep : Bool) (l : List Shape) : fixList keep l = l.map (fix keep) := by
   induction l with
   | nil => simp [fixList]
   | cons a r ih => simp [fixList, ih]
@@ -37,15 +37,15 @@ theorem fixLineString_ty (keep e : Bool) (c : Nat) :
 
 /-- the elements a MultiLineString is rebuilt from are LineStrings, or Points when collapses are kept -/
 theorem multiLine_elems (keep : Bool) (ls : List Shape) :
-    ∀ r ∈ ls.filterMap (fun l => match l with | .line e c => fixLineStringElement keep e c | _ => none),
+    ∀ r ∈ ls.filterMap (Shape.lineElem keep),
       r = .atom .lineString false ∨ (keep = true ∧ r = .atom .point false) := by
   intro r hr
   obtain ⟨l, _, hl⟩ := List.mem_filterMap.mp hr
   cases l with
   | line e c =>
-    dsimp only at hl
+    simp only [Shape.lineElem] at hl
     rcases lineElem_cases keep e c with h1 | h1 | ⟨hk, h1⟩ <;> rw [h1] at hl <;> simp_all
-  | _ => simp at hl
+  | _ => simp [Shape.lineElem] at hl
 
 theorem multiLine_ty (keep : Bool) (ls : List Shape) :
     (fix keep (.multiLine ls)).ty = .multiLineString ∨ (fix keep (.multiLine ls)).ty = .lineString ∨
@@ -55,7 +55,7 @@ theorem multiLine_ty (keep : Bool) (ls : List Shape) :
   by_cases h0 : ls.isEmpty = true
   · simp [h0, Res.ty]
   · simp only [h0, if_false, Bool.false_eq_true]
-    generalize ls.filterMap (fun l => match l with | .line e c => fixLineStringElement keep e c | _ => none) = fixed at helem
+    generalize ls.filterMap (Shape.lineElem keep) = fixed at helem
     match fixed, helem with
     | [], _ => simp [Res.ty]
     | [one], helem =>
